@@ -77,10 +77,32 @@ impl<'tcx, 'a> Cx<'tcx, 'a> {
         let outer = if exp { sp.source_callsite() } else { sp };
         let lo = sm.lookup_char_pos(outer.lo());
         let file = format!("{}", lo.file.name.prefer_local_unconditionally());
-        if file == self.fn_file {
-            format!("[{},{},{}]", lo.line, lo.col.0 + 1, if exp { 1 } else { 0 })
+        if !exp {
+            if file == self.fn_file {
+                format!("[{},{},0]", lo.line, lo.col.0 + 1)
+            } else {
+                format!("[{},{},0,{}]", lo.line, lo.col.0 + 1, esc(&file))
+            }
         } else {
-            format!("[{},{},{},{}]", lo.line, lo.col.0 + 1, if exp { 1 } else { 0 }, esc(&file))
+            // names of the innermost and outermost macro of the expansion chain
+            let inner = macro_name(sp.ctxt().outer_expn_data().kind);
+            let mut cur = sp;
+            let mut outer_name = inner.clone();
+            let mut guard = 0;
+            while cur.from_expansion() && guard < 64 {
+                let ed = cur.ctxt().outer_expn_data();
+                outer_name = macro_name(ed.kind);
+                cur = ed.call_site;
+                guard += 1;
+            }
+            format!(
+                "[{},{},1,{},{},{}]",
+                lo.line,
+                lo.col.0 + 1,
+                if file == self.fn_file { "null".to_string() } else { esc(&file) },
+                esc(&outer_name),
+                esc(&inner)
+            )
         }
     }
 
@@ -321,6 +343,13 @@ impl<'tcx, 'a> Cx<'tcx, 'a> {
             UnwindAction::Terminate(_) => "\"term\"".to_string(),
             UnwindAction::Cleanup(bb) => format!("{}", bb.as_usize()),
         }
+    }
+}
+
+fn macro_name(k: rustc_span::hygiene::ExpnKind) -> String {
+    match k {
+        rustc_span::hygiene::ExpnKind::Macro(mk, name) => format!("{:?}:{}", mk, name),
+        other => format!("{:?}", other),
     }
 }
 
